@@ -55,14 +55,15 @@ template<class V> static void run(const VpCase* c, VpOutcome* o) {
     poison_below(al[0] ^ f);
     if (!scalar) {
         switch (f) {
-        case F_FREXP: { IV out = mk<IV>(el); r = avel::frexp(a, &out); rd<IV>(out, gote); break; }
+        case F_FREXP: { uint64_t pz[VP_MAXL]; for (unsigned i = 0; i < W; ++i) pz[i] = 0x5A5A5A5A5A5A5A5Aull & elem<IT>::mask();     // the out-parameter holds garbage before the call: every lane must be written
+                        IV out = mk<IV>(pz); r = avel::frexp(a, &out); rd<IV>(out, gote); break; }
         case F_LDEXP: r = avel::ldexp(a, e); break; case F_SCALBN: r = avel::scalbn(a, e); break;
         case F_ILOGB: ir = avel::ilogb(a); int_result = true; break; case F_LOGB: r = avel::logb(a); break; case F_FRAC: r = avel::frac(a); break;
         case F_FMAX: r = avel::fmax(a, b); break; case F_FMIN: r = avel::fmin(a, b); break; default: r = avel::fdim(a, b); break;
         }
         if (int_result) rd<IV>(ir, got); else rd<V>(r, got);
     } else {
-        T x = elem<T>::from_bits(al[0]), y = elem<T>::from_bits(bl[0]), z{}; IT ie = (IT)ev[0], io = 0;
+        T x = elem<T>::from_bits(al[0]), y = elem<T>::from_bits(bl[0]), z{}; IT ie = (IT)ev[0], io = (IT)0x5A5A5A5A;
         switch (f) {
         case F_FREXP: z = avel::frexp(x, &io); gote[0] = elem<IT>::to_bits(io); break;
         case F_LDEXP: z = avel::ldexp(x, ie); break; case F_SCALBN: z = avel::scalbn(x, ie); break;
